@@ -101,6 +101,29 @@ type emtRec struct {
 	pre   int
 	n     int
 	data  []RawType
+	k     int  // index of the trigger sample in the delivered stream
+	at    int  // position in the pass's record list
+	skip  bool // near a request or a loss of frames, or reaching across a loss: not compared between the passes
+}
+
+// c08Req is one control request of a request sequence.
+type c08Req struct {
+	lengths bool
+	ns, np  int
+	ts      TriggerState
+}
+
+// c08Cut is a place in the stream where both passes have a block edge: control requests are issued
+// there and/or the hardware loses frames there.
+type c08Cut struct {
+	pos      int
+	gap      int  // frames lost before the block that starts here
+	drop     int  // droppedFrames count that block carries
+	scripted bool // a request sequence is issued here
+	script   []c08Req
+	drawn    bool // script has been drawn (in the first pass, following the server's answers)
+	final    bool // the sequence ends by asking for the run's edge-multi settings at its record lengths
+	answers  [2][]bool
 }
 
 func c08Body(env *simrt.Env) {
@@ -132,21 +155,208 @@ func c08Body(env *simrt.Env) {
 		ts.EdgeMultiLevel, ts.EdgeMultiVerifyNMonotone, ts.EdgeMultiMakeShortRecords, ts.EdgeMultiMakeContaminatedRecords, ts.EdgeMultiDisableZeroThreshold, w.signed[0])
 	env.Op("features %v", feats)
 
-	pass := func(part []int) ([]emtRec, *chanObs) {
-		w.sent, w.fed = 0, 0
-		w.blockFirst, w.blockStamp = nil, nil
+	// ---- cuts: where requests are issued and where frames are lost. Both passes have a block edge there.
+	// scenario 0, 1: the edge-multi request before any data and nothing else (the plain case);
+	// scenario 2: request sequences (lengths and trigger requests in both orders, some of them refused)
+	// before the data and once or twice mid-run.
+	var interior []int // block edges of the partition that leave the quiet tail alone
+	for _, e := range edges {
+		if e >= 1 && e <= total-3*nsamp {
+			interior = append(interior, e)
+		}
+	}
+	cutAt := map[int]*c08Cut{0: {pos: 0, scripted: true}}
+	cut := func(pos int) *c08Cut {
+		if cutAt[pos] == nil {
+			cutAt[pos] = &c08Cut{pos: pos}
+		}
+		return cutAt[pos]
+	}
+	sequences := simrt.Draw(3) == 2
+	if sequences {
+		last := 0
+		for i := 0; i < 1+simrt.Draw(2) && len(interior) > 0; i++ {
+			pos := interior[simrt.Draw(len(interior))]
+			cut(pos).scripted = true
+			if pos > last {
+				last = pos
+			}
+		}
+		if simrt.Draw(4) > 0 {
+			cutAt[last].final = true // (else the run may end with edge-multi off or refused)
+		}
+	}
+	// faulted runs: 1 frames lost and reported (droppedFrames set), 2 frames lost, only the numbers jump,
+	// 3 droppedFrames set on blocks of a contiguous stream (packet loss filled in by the source)
+	trouble := 0
+	if env.Faulted() {
+		trouble = simrt.DrawFault(4)
+	}
+	maxLen := nsamp
+	if (trouble == 1 || trouble == 2) && len(interior) > 0 {
+		for i := 0; i < 1+simrt.DrawFault(2); i++ {
+			sizes := []int{1, 2, 3, npre - 1, npre, nsamp - npre, nsamp - 1, nsamp, nsamp + 1, nsamp + npre + 10, nsamp + npre + 11, 2*nsamp + 10, 2*nsamp + 11,
+				3 * nsamp, 10*nsamp + simrt.DrawFault(1000), 1 << 20}
+			ct := cut(interior[simrt.DrawFault(len(interior))])
+			ct.gap = sizes[simrt.DrawFault(len(sizes))]
+			if trouble == 1 {
+				ct.drop = ct.gap
+			}
+		}
+	}
+	if trouble == 3 {
+		for _, e := range interior {
+			if simrt.DrawFault(4) == 1 {
+				cut(e).drop = 1 + simrt.DrawFault(40)
+			}
+		}
+	}
+	var cutPos []int
+	for _, e := range append([]int{0}, interior...) {
+		if cutAt[e] != nil && (len(cutPos) == 0 || cutPos[len(cutPos)-1] != e) {
+			cutPos = append(cutPos, e)
+		}
+	}
+
+	oddLengths := [][2]int{{8, 6}, {8, 5}, {10, 3}, {6, 3}, {5, 4}, {4, 3}, {12, 9}, {16, 13}, {7, 3}, {9, 4}, {10, 8}, {16, 14}, {25, 23}, {50, 49}, {120, 118}}
+	allOff := TriggerState{AutoDelay: 250 * time.Millisecond, EdgeLevel: 100, EdgeRising: true, LevelLevel: 4000}
+
+	pass := func(pi int, part []int) ([]emtRec, *chanObs) {
+		w.sent, w.fed, w.gapSum = 0, 0, 0
+		w.blockFirst, w.blockStamp, w.blockFrame0, w.blockDrop = nil, nil, nil, nil
+		w.nsamp, w.npre = nsamp, npre
+		// (both passes start from the same configuration, like a server started twice with the same file)
+		w.sc.status.Nsamples, w.sc.status.Npresamp = nsamp, npre
 		before := len(w.sk.recs)
 		if err := w.startScripted(); err != nil {
 			simrt.Fail("harness.start", "harness:start", "Start failed: %v", err)
 		}
-		var ok bool
-		st := FullTriggerState{ChannelIndices: []int{0}, TriggerState: ts}
-		if err := w.sc.ConfigureTriggers(&st, &ok); err != nil {
-			simrt.Fail("harness.configure", "harness:configure", "ConfigureTriggers(EMT) rejected: %v", err)
+		cur := allOff
+		o := &chanObs{epochs: []epoch{{ts: cur, npre: npre, nsamp: nsamp}}}
+		newEpoch := func() {
+			w.drain()
+			o.epochs = append(o.epochs, epoch{from: w.sent, recFrom: len(w.sk.recs) - before, ts: cur, npre: w.npre, nsamp: w.nsamp})
+			if w.nsamp > maxLen {
+				maxLen = w.nsamp
+			}
+		}
+		// issue follows the server's answer: what it accepted is in force from here on
+		issue := func(ct *c08Cut, rq c08Req) {
+			var ok bool
+			var err error
+			if rq.lengths {
+				err = w.sc.ConfigurePulseLengths(SizeObject{Nsamp: rq.ns, Npre: rq.np}, &ok)
+				env.Op("pass %d at %d: ConfigurePulseLengths nsamp=%d npre=%d -> %v", pi, ct.pos, rq.ns, rq.np, err)
+				if err == nil {
+					w.nsamp, w.npre = rq.ns, rq.np
+				}
+			} else {
+				st := FullTriggerState{ChannelIndices: []int{0}, TriggerState: rq.ts}
+				err = w.sc.ConfigureTriggers(&st, &ok)
+				env.Op("pass %d at %d: ConfigureTriggers emt=%v level=%d nmono=%d short=%v contaminated=%v nozt=%v -> %v", pi, ct.pos, rq.ts.EdgeMulti, rq.ts.EdgeMultiLevel,
+					rq.ts.EdgeMultiVerifyNMonotone, rq.ts.EdgeMultiMakeShortRecords, rq.ts.EdgeMultiMakeContaminatedRecords, rq.ts.EdgeMultiDisableZeroThreshold, err)
+				if err == nil {
+					if st.TriggerState.EdgeMulti && (w.nsamp-w.npre < 4 || w.npre < 4) {
+						simrt.Hit("edge-multi-on-with-a-short-side")
+					}
+					cur = st.TriggerState
+				}
+			}
+			if err != nil {
+				simrt.Hit("request-refused")
+			}
+			ct.answers[pi] = append(ct.answers[pi], err == nil)
+			if err == nil {
+				newEpoch()
+			}
+		}
+		atCut := func(ct *c08Cut) {
+			if ct.pos > 0 && ct.scripted {
+				w.sync()
+				w.drain()
+			}
+			if !ct.scripted {
+				// only the hardware does something here
+			} else if !sequences {
+				issue(ct, c08Req{ts: ts})
+				if !cur.EdgeMulti {
+					simrt.Fail("harness.configure", "harness:configure", "ConfigureTriggers(EMT) rejected")
+				}
+			} else if !ct.drawn {
+				// first pass: draw the sequence while following the answers
+				ct.drawn = true
+				pat := simrt.Draw(4)
+				n := 2 + simrt.Draw(3)
+				for i := 0; i < n; i++ {
+					// 0 usual lengths, 1 lengths with a short side, 2 edge-multi request, 3 all triggers off
+					kind := simrt.Draw(4)
+					switch pat {
+					case 0:
+						kind = []int{1, 2, 0, 2}[i]
+					case 1:
+						kind = []int{3, 1, 2, 0}[i]
+					case 2:
+						kind = []int{2, 1, 2, 0}[i]
+					}
+					var rq c08Req
+					switch kind {
+					case 0:
+						rq.lengths = true
+						rq.ns, rq.np = drawLengths()
+						if rq.ns > 120 {
+							rq.ns, rq.np = 25, 4+simrt.Draw(18)
+						}
+					case 1:
+						l := oddLengths[simrt.Draw(len(oddLengths))]
+						rq = c08Req{lengths: true, ns: l[0], np: l[1]}
+					case 2:
+						rq.ts = genEMTState(streamSpec{}, w.signed[0], w.nsamp, w.npre)
+						if simrt.Draw(4) == 0 {
+							rq.ts.EdgeMultiVerifyNMonotone = w.nsamp - w.npre + 1 + simrt.Draw(3)
+						}
+					default:
+						rq.ts = allOff
+					}
+					ct.script = append(ct.script, rq)
+					issue(ct, rq)
+				}
+				if ct.final {
+					for _, rq := range []c08Req{{ts: allOff}, {lengths: true, ns: nsamp, np: npre}, {ts: ts}} {
+						ct.script = append(ct.script, rq)
+						issue(ct, rq)
+					}
+				}
+				simrt.Hit("request-sequence")
+			} else {
+				for _, rq := range ct.script {
+					issue(ct, rq)
+				}
+			}
+			if ct.gap > 0 {
+				w.gapNext = ct.gap
+				simrt.Fault("frames-lost-between-blocks")
+				if ct.gap > w.nsamp+w.npre+10 {
+					simrt.Hit("lost-frames:more-than-the-retained-history")
+				} else {
+					simrt.Hit("lost-frames:fewer-than-the-retained-history")
+				}
+				if pi == 0 {
+					env.Op("hardware loses %d frames before sample %d (reported: %v)", ct.gap, ct.pos, ct.drop > 0)
+				}
+			}
+			if ct.drop > 0 {
+				w.dropNext = ct.drop
+				if ct.gap == 0 {
+					simrt.Fault("dropped-frames-flag-on-contiguous-block")
+				}
+			}
 		}
 		for _, n := range part {
+			if ct := cutAt[w.sent]; ct != nil {
+				atCut(ct)
+			}
 			w.feedBlock(n, nil)
-			if n < nsamp-npre {
+			if n < w.nsamp-w.npre {
 				simrt.Hit("block-shorter-than-lookahead")
 			}
 		}
@@ -154,64 +364,110 @@ func c08Body(env *simrt.Env) {
 		w.drain()
 		w.stop()
 		w.drain()
-		o := &chanObs{epochs: []epoch{{ts: st.TriggerState, npre: npre, nsamp: nsamp}}, blockFirst: w.blockFirst, blockStamp: w.blockStamp}
+		o.blockFirst, o.blockStamp, o.blockFrame0 = w.blockFirst, w.blockStamp, w.blockFrame0
 		var out []emtRec
-		for _, ro := range w.sk.recs[before:] {
+		for i, ro := range w.sk.recs[before:] {
 			r := ro.rec
-			out = append(out, emtRec{r.trigFrame, r.presamples, len(r.data), r.data})
+			out = append(out, emtRec{frame: r.trigFrame, pre: r.presamples, n: len(r.data), data: r.data, at: i})
 			o.recs = append(o.recs, ro)
 		}
 		return out, o
 	}
-	one, oa := pass([]int{total})
-	many, ob := pass(blocks)
-	env.Op("one block: %d records; %d blocks: %d records", len(one), len(blocks), len(many))
-
-	mode := EMTRecordsFullLengthIsolated
-	if ts.EdgeMultiMakeShortRecords {
-		mode = EMTRecordsVariableLength
-	} else if ts.EdgeMultiMakeContaminatedRecords {
-		mode = EMTRecordsTwoFullLength
+	// first pass: one block between two cuts; second pass: the drawn partition
+	var coarse []int
+	for i, pos := range cutPos {
+		end := total
+		if i+1 < len(cutPos) {
+			end = cutPos[i+1]
+		}
+		if end > pos {
+			coarse = append(coarse, end-pos)
+		}
 	}
-	structural := func(name string, rs []emtRec) {
-		for i, r := range rs {
-			if i > 0 && r.frame <= rs[i-1].frame {
-				simrt.Fail("C08.order", "emt:frames-not-increasing", "%s: record %d has frame %d after frame %d", name, i, r.frame, rs[i-1].frame)
-			}
-			if mode != EMTRecordsVariableLength {
-				if r.n != nsamp || r.pre != npre {
-					simrt.Fail("C08.full-length", "emt:not-full-length", "%s: record %d at frame %d has len=%d pre=%d in a fixed-length mode (nsamp=%d npre=%d)", name, i, r.frame, r.n, r.pre, nsamp, npre)
-				}
-			} else if i+1 < len(rs) {
-				nx := rs[i+1]
-				end := r.frame + FrameIndex(r.n-r.pre)
-				if end > nx.frame {
-					simrt.Fail("C08.variable-extent", "emt:record-past-next-edge", "%s: record at frame %d (post %d) extends past the next trigger at %d", name, r.frame, r.n-r.pre, nx.frame)
-				}
-				if end > nx.frame-FrameIndex(nx.pre) {
-					simrt.Fail("C08.variable-overlap", "emt:records-overlap", "%s: record at frame %d ends at %d, next record starts at %d", name, r.frame, end, nx.frame-FrameIndex(nx.pre))
+	one, oa := pass(0, coarse)
+	many, ob := pass(1, blocks)
+	env.Op("%d block(s): %d records; %d blocks: %d records", len(coarse), len(one), len(blocks), len(many))
+	for _, pos := range cutPos {
+		ct := cutAt[pos]
+		if fmt.Sprint(ct.answers[0]) != fmt.Sprint(ct.answers[1]) {
+			simrt.Fail("C08.partition-independent", "emt:request-answers-differ", "the requests at sample %d were answered %v (true: accepted) when the stream came in %d blocks and %v when it came in %d blocks",
+				pos, ct.answers[0], len(coarse), ct.answers[1], len(blocks))
+		}
+	}
+
+	// C01's excerpt oracle for every record of both passes (it also resolves where in the delivered stream a
+	// record sits and whether it reaches across a loss of frames)
+	w.sent = total
+	checkExcerpts(w, 0, oa)
+	checkExcerpts(w, 0, ob)
+	// What is compared between the passes and held to the structural rules. The property speaks of one
+	// stream under one configuration; next to a reconfiguration with data retained the usual exemption of
+	// 2 records + 10 samples applies (DESIGN §5 C02), and next to a loss of frames the property settles
+	// nothing but crash-freedom and excerpts (checkExcerpts): three record lengths before it (what was still
+	// pending when the loss came) and two behind it are left out. Blocks that merely carry a droppedFrames
+	// count are part of a contiguous stream and get no exemption.
+	mark := func(rs []emtRec, o *chanObs) {
+		for i := range rs {
+			rs[i].k = o.idx[i]
+			rs[i].skip = o.across[i]
+			for _, pos := range cutPos {
+				ct := cutAt[pos]
+				if pos > 0 && (ct.gap > 0 || ct.scripted) && rs[i].k > pos-3*maxLen-10 && rs[i].k < pos+2*maxLen+10 {
+					rs[i].skip = true
 				}
 			}
 		}
 	}
-	structural("one-block", one)
-	structural("partitioned", many)
-	w.sent = total
-	checkExcerpts(w, 0, oa)
-	checkExcerpts(w, 0, ob)
+	mark(one, oa)
+	mark(many, ob)
+	structural := func(name string, rs []emtRec, o *chanObs) []emtRec {
+		var kept []emtRec
+		for _, r := range rs {
+			if r.skip {
+				simrt.Hit("record-not-compared")
+				continue
+			}
+			e := epochOfRec(o, r.at)
+			if !e.ts.EdgeMulti {
+				simrt.Fail("C08.sound", "emt:record-without-edge-multi", "%s: record at frame %d although no trigger was enabled then", name, r.frame)
+			}
+			if len(kept) > 0 {
+				pv := kept[len(kept)-1]
+				if r.frame <= pv.frame {
+					simrt.Fail("C08.order", "emt:frames-not-increasing", "%s: record %d has frame %d after frame %d", name, r.at, r.frame, pv.frame)
+				}
+				if pe := epochOfRec(o, pv.at); pe == e && pv.at+1 == r.at && e.ts.EMTState.mode == EMTRecordsVariableLength {
+					end := pv.frame + FrameIndex(pv.n-pv.pre)
+					if end > r.frame {
+						simrt.Fail("C08.variable-extent", "emt:record-past-next-edge", "%s: record at frame %d (post %d) extends past the next trigger at %d", name, pv.frame, pv.n-pv.pre, r.frame)
+					}
+					if end > r.frame-FrameIndex(r.pre) {
+						simrt.Fail("C08.variable-overlap", "emt:records-overlap", "%s: record at frame %d ends at %d, next record starts at %d", name, pv.frame, end, r.frame-FrameIndex(r.pre))
+					}
+				}
+			}
+			if e.ts.EMTState.mode != EMTRecordsVariableLength && (r.n != e.nsamp || r.pre != e.npre) {
+				simrt.Fail("C08.full-length", "emt:not-full-length", "%s: record %d at frame %d has len=%d pre=%d in a fixed-length mode (nsamp=%d npre=%d)", name, r.at, r.frame, r.n, r.pre, e.nsamp, e.npre)
+			}
+			kept = append(kept, r)
+		}
+		return kept
+	}
+	one = structural("coarse", one, oa)
+	many = structural("partitioned", many, ob)
 	if len(one) != len(many) {
-		simrt.Fail("C08.partition-independent", "emt:record-count-differs", "one block gives %d records, %d blocks give %d (one-block frames %v, partitioned frames %v)", len(one), len(blocks), len(many), framesOf(one), framesOf(many))
+		simrt.Fail("C08.partition-independent", "emt:record-count-differs", "%d block(s) give %d records, %d blocks give %d (frames %v vs. %v)", len(coarse), len(one), len(blocks), len(many), framesOf(one), framesOf(many))
 	}
 	for i := range one {
 		a, b := one[i], many[i]
 		if a.frame != b.frame || a.pre != b.pre || a.n != b.n {
-			simrt.Fail("C08.partition-independent", "emt:record-differs", "record %d: one block gives (frame %d, pre %d, len %d), partition gives (frame %d, pre %d, len %d)", i, a.frame, a.pre, a.n, b.frame, b.pre, b.n)
+			simrt.Fail("C08.partition-independent", "emt:record-differs", "record %d: %d block(s) give (frame %d, pre %d, len %d), the partition gives (frame %d, pre %d, len %d)", i, len(coarse), a.frame, a.pre, a.n, b.frame, b.pre, b.n)
 		}
 	}
 	if len(one) > 0 {
 		simrt.Hit("emt-records-produced")
 	}
-	env.Sample(map[string]interface{}{"nsamp": nsamp, "npre": npre, "samples": total, "blocks": len(blocks), "records": len(one), "mode": int(mode), "features": feats})
+	env.Sample(map[string]interface{}{"nsamp": nsamp, "npre": npre, "samples": total, "blocks": len(blocks), "records": len(one), "cuts": len(cutPos), "sequences": sequences, "trouble": trouble, "features": feats})
 }
 
 func framesOf(rs []emtRec) []FrameIndex {
